@@ -66,8 +66,14 @@ def params():
                 if st.kind == "param":
                     for grp, typ in st.a["groups"]:
                         names += [n.lower() for n, d in grp]
+                        if typ and typ[0] == "STRING":
+                            for n, d in grp:
+                                _sizes[(p.name.lower(), n.lower())] = typ[1] or 32
             _lib[p.name.lower()] = names
     return _lib
+
+
+_sizes = {}  # (procedure, string parameter) -> declared length: the procedure sees no more of its argument than that
 
 
 # statement forms: (name, template with {0},{1}.. numeric operand slots and {s} string slot)
@@ -245,8 +251,10 @@ def judge(text, opts, has_hbuff):
                 if g != want:
                     v.append(("operand-differs", f"RUN {proc}: parameter {pn} receives {got!r}, expected the {want[1]} record"))
             elif isinstance(want, str):
-                if got != want:
-                    v.append(("operand-differs", f"RUN {proc}: parameter {pn} receives {got!r}, expected {want!r}"))
+                size = _sizes.get((proc, pn))
+                seen = got[:size] if isinstance(got, str) and size else got
+                if seen != want:
+                    v.append(("operand-differs", f"RUN {proc}: parameter {pn}" + (f" (declared STRING[{size}])" if size and seen != got else "") + f" receives {seen!r}, expected {want!r}"))
             else:
                 try:
                     ok = abs(float(got) - float(want)) < 1e-9
